@@ -611,3 +611,18 @@ package eval
 //@   inline
 //@ func randIntSmallInt
 //@   props C17
+
+// C17 / C11: rem. Arguments are numbers in canonical form (a *big.Int only for
+// values outside the int range - what the argument conversion produces), so a
+// zero divisor is always the int 0 and is rejected before any division.
+//@ func checkExactIntArg
+//@   inline
+//@ func rem
+//@   props C17 C11
+//@   results r err
+//@   requires (istype(a, int) || istype(a, *big.Int) || istype(a, *big.Rat) || istype(a, float64)) && (istype(b, int) || istype(b, *big.Int) || istype(b, *big.Rat) || istype(b, float64))
+//@   requires [canonical-big-ints] (istype(a, *big.Int) ==> a.(*big.Int) != nil && !fits(bigval(a.(*big.Int)))) && (istype(b, *big.Int) ==> b.(*big.Int) != nil && !fits(bigval(b.(*big.Int))))
+//@   requires (istype(a, *big.Int) ==> allocated(a.(*big.Int))) && (istype(b, *big.Int) ==> allocated(b.(*big.Int)))
+//@   ensures [zero-divisor-raises] istype(b, int) && b.(int) == 0 ==> err != nil
+//@   ensures [non-integers-rejected] !(istype(a, int) || istype(a, *big.Int)) || !(istype(b, int) || istype(b, *big.Int)) ==> err != nil
+//@   ensures [machine-int-remainder] istype(a, int) && istype(b, int) && b.(int) != 0 ==> err == nil && istype(r, int)
